@@ -50,6 +50,7 @@ func c19Alphabet() []Action {
 
 type c19Args struct {
 	Shard, Shards, Depth int
+	Sched                bool
 }
 
 func (c19Check) Units(tier string, seed int64) []Unit {
@@ -59,6 +60,10 @@ func (c19Check) Units(tier string, seed int64) []Unit {
 		depth = 5
 	}
 	var us []Unit
+	{
+		b, _ := json.Marshal(c19Args{Sched: true})
+		us = append(us, Unit{Name: "sched-concurrent-accounting", Args: b})
+	}
 	for sh := 0; sh < shards; sh++ {
 		b, _ := json.Marshal(c19Args{Shard: sh, Shards: shards, Depth: depth})
 		us = append(us, Unit{Name: fmt.Sprintf("depth%d-first%d", depth, sh), Args: b})
@@ -83,6 +88,24 @@ func (c19Check) Run(u Unit, w *Worker) UnitResult {
 	var a c19Args
 	json.Unmarshal(u.Args, &a)
 	res := UnitResult{Stats: map[string]int64{}}
+	if a.Sched {
+		// the figure must not depend on the interleaving either: concurrent writers on DISTINCT new keys (sequentially exact today)
+		bound := 2
+		if u.Tier == "thorough" {
+			bound = 3
+		}
+		for _, sc := range []*SchedScenario{
+			{Name: "figure under interleaving: SET k1 v || SET k2 ww", Threads: [][]Action{{cmd("SET", "k1", "v")}, {cmd("SET", "k2", "ww")}}, Bound: bound, MaxExec: 60000, TrackMem: true},
+			{Name: "figure under interleaving: SET k1 v || DEL k3", Setup: []Action{cmd("SET", "k3", "x")}, Threads: [][]Action{{cmd("SET", "k1", "v")}, {cmd("DEL", "k3")}}, Bound: bound, MaxExec: 60000, TrackMem: true},
+			{Name: "figure under interleaving: MSET k1 v k2 v || RPUSH l a", Threads: [][]Action{{cmd("MSET", "k1", "v", "k2", "v")}, {cmd("RPUSH", "l", "a")}}, Bound: bound, MaxExec: 60000, TrackMem: true},
+			{Name: "figure under interleaving: SET k1 v || SET k2 v || SET k3 v", Threads: [][]Action{{cmd("SET", "k1", "v")}, {cmd("SET", "k2", "v")}, {cmd("SET", "k3", "v")}}, Bound: bound - 1, MaxExec: 60000, TrackMem: true},
+		} {
+			if w.Case(sc.Name) {
+				judgeScenario("C19", sc, &res)
+			}
+		}
+		return res
+	}
 	alpha := c19Alphabet()
 	// fresh figure of a state, cached by state key
 	figs := map[string]int64{}
